@@ -26,3 +26,7 @@ package channelsubscriptions
 //@   ensures [released-iff-terminal] channels.IsChannelTerminated(state.Status()) ==> !has(cs.subscriptions, state.ChannelID())
 //@ func (*channelsubscriptions.ChannelSubscriptions).Stop {C17}
 //@   opaque
+
+//@ func channelsubscriptions.NewChannelSubscriptions {C17,C20}
+//@   constructor
+//@   requires subscriptionAPI != nil
